@@ -1,7 +1,7 @@
 from .common import TRUSTED_BASE_COMMON
 THEOREMS = [
     "C05_constants", "C05_deadline_arithmetic", "C05_cron_tick_total", "C05_cron_schedule_inv",
-    "C05_no_duplicate_event", "C05_no_event_lost", "C05_claims_deleted_only_on_failed_callback",
+    "C05_no_duplicate_event", "C05_no_event_lost", "C05_proving_deadline_callback_on_time", "C05_claims_deleted_only_on_failed_callback",
     "C05_failed_callback_deletes_claim", "C05_miner_callback_total_partial",
     "C05_miner_callback_fails_on_hard_input", "C05_early_terminations_drain",
     "C05_early_terminations_never_stranded", "C05_deadline_recorded_after_tick",
